@@ -782,6 +782,25 @@ func suiteLocals(o *Out, thorough bool, seed int64) {
 			}
 		}
 	}
+	// a local has the VALUE of the right-hand side, whatever its size: numbers beyond the 34 digits and the exponent
+	// range that computed numbers have (long literals, decimals handed in by the caller, and everything that passes
+	// them on unchanged: unary plus, max, min, finite, ??, ||, &&, a conditional branch) are bound digit for digit
+	{
+		w40 := "D+:1000000000000000000000000000000000000001:-39"
+		wneg := "D-:9999999999999999999999999999999999999999:5"
+		d := wmap("w", w40, "v", wneg, "big", "D+:1:7000", "tiny", "D+:1:-7000", "f", "H1", "g", "H2")
+		srcs := []string{"12345678901234567890123456789012345", "0.1234567890123456789012345678901234567890", "1e7000", "1e-7000", "123456789012345678901234567890123456789e-6500",
+			"w", "v", "big", "tiny", "+w", "max(w, 0)", "min(v, 0)", "finite(w)", "w ?? 1", "w || 0", "1 && w", "(x ? w : v)", "(n ? w : v)", "[w][0]", "(0, w)"}
+		for _, e := range srcs {
+			for _, t := range []string{"$n = " + e + ", $n == " + e, "[$n = " + e + ", $n]", "toString($n = " + e + ")", "$n = " + e + ", $n - " + e, "($n = " + e + ") === " + e,
+				"$n = " + e + ", $m = $n, [$m === " + e + ", $m]", "f($n = " + e + ", $n)", "$n = " + e + ", $n = $n, $n"} {
+				line := fmt.Sprintf("EV\t%s\t0\t%s\t%s", hx([]byte(t)), hosts, d)
+				emitEval(o, t, 0, hosts, d, true)
+				snapshotOracle(o, line, t, hosts, d)
+			}
+		}
+		o.Stat("wide-number-assignments")
+	}
 	// exhaustive small programs over a 12-lexeme alphabet
 	lex := []string{"$a", "$b", "x", "=", ",", "1", "(", ")", "[", "]", "+", "f"}
 	k := 5
@@ -1234,6 +1253,19 @@ func suiteBridge(o *Out, thorough bool, seed int64) {
 		t += ")"
 		emitEval(o, t, 0, hosts, wmap(kv...), true)
 	}
+	// the arguments of a call are evaluated - left to right, each nested call invoked once, each assignment bound -
+	// whatever the callee turns out to be: a number, a string, a map, null, an undefined name, the result of a call
+	{
+		hosts := "1:0:0:2:0:a:Ii:42;2:0:1:2:0:a:" + ws("r")
+		d := wmap("rate", "D+:19:-2", "s", ws("txt"), "m", wmap("k", "Ii:1", "h", "H1"), "n", "N", "h", "H1", "v", "H2", "arr", "A1 Ii:1", "p", "P")
+		for _, t := range []string{"rate(h(7), $seen = 1)", "nofn(h(8))", "s(h(1), h(2))", "m(h(1))", "n(h(1))", "m.k(h(1))", "m.nope(h(1), $a = 2)", "h(1)(h(2))", "(1)(h(3))", "rate(h(1), nofn(h(2)))",
+			"rate(n!.x, h(1))", "rate(h(1), n!.x, h(2))", "arr(h(1))", "p(h(1))", "'lit'(h(1), $b = h(2))", "null(h(1))", "true(h(1))", "[1](h(1))", "rate(v(1, 2), v(3))", "rate(h(1)...)", "rate(h(1), arr...)",
+			"rate(h(h(1)))", "nofn($a = h(1), $a)", "(rate)(h(1))", "this.rate(h(1))", "this.nofn(h(1), h(2))", "rate(h(1)) ?? h(2)", "[h(1), rate(h(2)), h(3)]", "h(rate(h(1)))", "h(1), rate(h(2)), h(3)",
+			"m.h(h(5))", "m.h(rate(h(5)))", "rate(m.h(5), m.h(6))", "rate()", "nofn()", "rate($x = 1), $x", "$f = rate, $f(h(1))", "$f = h, $f($f(1))", "(n ?? rate)(h(1))", "(n ?? h)(h(1))"} {
+			emitEval(o, t, 0, hosts, d, true)
+		}
+		o.Stat("non-function-callees-with-effects")
+	}
 	// exhaustive: every signature with 0..1 parameters (x ctx x variadic) x every argument list of length 0..2
 	for _, ctx := range []bool{false, true} {
 		for _, variadic := range []bool{false, true} {
@@ -1483,6 +1515,48 @@ func suiteLiterals(o *Out, thorough bool, seed int64) {
 	n := 5000
 	if thorough {
 		n = 200000
+	}
+	// "however many digits it has": digit groups far beyond 40 digits, around the sizes a fixed buffer would have
+	// (64, 128, 256, ... ) with separators at the first gap, the last gap, every third digit and at random, in the
+	// integer part, the fraction and both; the literal must equal the same digits written without separators
+	{
+		// (the extracted model reads and prints digit strings in quadratic time: the sizes of the quick tier stop at 1025)
+		sizes := []int{41, 63, 64, 65, 66, 67, 100, 127, 128, 129, 200, 255, 256, 257, 511, 512, 513, 1023, 1024, 1025}
+		if thorough {
+			sizes = append(sizes, 2047, 2048, 2049, 4095, 4096, 4097)
+		}
+		group := func(n int, mode int) (string, string) {
+			var plain, sep strings.Builder
+			for i := 0; i < n; i++ {
+				c := byte('0' + r.Intn(10))
+				if i == 0 {
+					c = byte('1' + r.Intn(9))
+				}
+				plain.WriteByte(c)
+				sep.WriteByte(c)
+				if i+1 < n && ((mode == 1 && i == 0) || (mode == 2 && i == n-2) || (mode == 3 && i%3 == 2) || (mode == 4 && r.Intn(4) == 0) || (mode == 5 && i == 63) || (mode == 6 && i == n/2)) {
+					sep.WriteByte('_')
+				}
+			}
+			return plain.String(), sep.String()
+		}
+		for _, sz := range sizes {
+			for mode := 0; mode <= 6; mode++ {
+				ip, is := group(sz, mode)
+				fp, fs := group(sz, mode)
+				sp, ss := group(3, 0)
+				for _, pr := range [][2]string{{ip, is}, {"0." + fp, "0." + fs}, {ip + "." + sp, is + "." + ss}, {sp + "." + fp, ss + "." + fs}, {ip + "e-" + sp, is + "e-" + ss}} {
+					got := resultOf(emitEval(o, pr[1]+" == "+pr[0], 0, "-", "-", true))
+					if sz <= 300 {
+						emitEval(o, "["+pr[1]+"]", 0, "-", "-", true)
+					}
+					if got != "V T" {
+						o.Fail(fmt.Sprintf("EV\t%s\t0\t-\t-", hx([]byte(pr[1]+" == "+pr[0]))), fmt.Sprintf("a literal of %d digits with separators (placement %d) does not equal the same digits without: %s", sz, mode, got))
+					}
+				}
+			}
+		}
+		o.Stat("long-literal-groups")
 	}
 	digits := func(n int, sep bool) string {
 		var sb strings.Builder
